@@ -124,7 +124,7 @@ theorem conf_igReady_either (cfg : Cfg) (h2 : cfg.lateJoin = false) (p : Proc) (
     simp only at hadm ⊢
     revert hadm
     generalize TokenGame.joinOf cfg p s n g work = j
-    generalize lateReady s a g.arrived work = l
+    generalize lateAt s n a g.arrived work = l
     generalize TokenGame.earlyAt p s n g work = e
     cases j <;> cases l <;> cases e <;> simp
 
